@@ -8,6 +8,9 @@ HOOK_COMMITS = ["a1e4d44"]
 
 NOT_APPLICABLE = {}
 
+# properties whose check has been reviewed and verified on the unchanged tree; only these go into MANIFEST.json
+CLAIMED = ["C01", "C02", "C04", "C07", "C08", "C11", "C13", "C14", "C16", "C18"]
+
 CHECKS = {
     "C13": dict(
         pkg="props/c13", level="exploration",
